@@ -1,0 +1,44 @@
+//! Observation points for the external verification harness (cargo feature `verif-hooks`).
+//!
+//! A thread-local optional callback: thread-local because the ptrace tracer is the attaching
+//! *thread*, so anything the harness wants to observe about the stopped target has to be done on
+//! the thread that runs `dump`. Nothing here changes what the writer does.
+
+use std::cell::RefCell;
+
+#[derive(Debug, Clone, Copy, PartialEq, Eq)]
+pub enum Point {
+    /// `enumerate_threads` found this tid and is about to read its name
+    ThreadEnumerated(crate::Pid),
+    /// the dumper is built (threads and mappings enumerated), threads are not attached yet
+    ThreadsEnumerated,
+    /// every retained thread is ptrace-attached and stopped
+    ThreadsSuspended,
+    /// all target-memory accesses are done, threads are about to be detached
+    BeforeResume,
+}
+
+type Hook = Box<dyn FnMut(Point)>;
+
+thread_local! {
+    static HOOK: RefCell<Option<Hook>> = const { RefCell::new(None) };
+}
+
+/// Install (or remove) the callback for the current thread; returns the previous one.
+pub fn set_hook(hook: Option<Hook>) -> Option<Hook> {
+    HOOK.with(|h| std::mem::replace(&mut *h.borrow_mut(), hook))
+}
+
+pub(crate) fn fire(point: Point) {
+    // Take the hook out while it runs so that a hook may itself call into the crate.
+    let taken = HOOK.with(|h| h.borrow_mut().take());
+    if let Some(mut f) = taken {
+        f(point);
+        HOOK.with(|h| {
+            let mut slot = h.borrow_mut();
+            if slot.is_none() {
+                *slot = Some(f);
+            }
+        });
+    }
+}
